@@ -30,7 +30,11 @@ for d in sorted(glob.glob(os.path.join(V, "seeded", "*", "*"))):
     try:
         for c in checks:
             t0 = time.time()
+            ev = os.path.join(V, "evidence", c + ".json")
+            keep = open(ev).read() if os.path.exists(ev) else None
             p = subprocess.run([os.path.join(V, "check"), c, "--tier", "quick"], cwd=V, capture_output=True, text=True)
+            if keep is not None:  # evidence must describe the unchanged tree, never a seeded one
+                open(ev, "w").write(keep)
             lines = [l for l in p.stdout.splitlines() if l.startswith("VIOLATION") or l.startswith("KNOWN-FINDING")]
             rows.append((prop, os.path.basename(d), "%s rc=%d %.0fs" % (c, p.returncode, time.time() - t0), " | ".join(lines)[:300]))
             print(rows[-1], flush=True)
